@@ -722,6 +722,15 @@ fn onto_case(rng: &mut Rng, prop: &str, tier: &str, idx: usize) -> Case {
             c.op("rel 0".to_string());
             c.op("oracle closure 0".to_string());
             c.nontrivial = multi > 0;
+            if with_roots && rng.chance(1, 3) {
+                // construction path `from_bytes(as_bytes())` of the ontology just built (terms were
+                // supplied in any order: the first one may well have parents)
+                c.op("roundtrip 0 9".to_string());
+                c.op("dump 9".to_string());
+                c.op("rel 9".to_string());
+                c.op("oracle closure 9".to_string());
+                c.stat("binary_round_trip_path", 1);
+            }
             if rng.chance(1, 4) {
                 // construction path `sub_ontology`: a root and leaves below it (sometimes one outside)
                 sub_path(rng, &f, &mut c, "closure");
@@ -808,6 +817,21 @@ fn c15(rng: &mut Rng, idx: usize) -> Case {
         c.op(format!("bulkann {} 1 {} {} 2", KINDS[k], *rng.pick(&[65_536u32, 65_537, 70_000]), name("many")));
         c.op(format!("ann {} 9 {} 424242", KINDS[k], name("absent term")));
         c.op("icover".to_string());
+        c.nontrivial = true;
+        return c;
+    }
+    if idx % 40 == 9 {
+        // a chain of depth 40..110 (ids unrelated to the depth, growing with it, or growing towards
+        // the root): every valid call is accepted however deep the term
+        let mut c = Case::new("history-deep-chain");
+        let n = rng.range(40, 110) as usize;
+        let f = gen_deep_chain(rng, n);
+        let order = rng.below(3);
+        deep_prog(rng, &f, 0, order == 0, order == 2, &mut c);
+        facts_stats(&f, &mut c);
+        c.op("dump 0".to_string());
+        c.op("oracle closed 0".to_string());
+        c.stat("deep_chain_terms", n as u64);
         c.nontrivial = true;
         return c;
     }
@@ -900,7 +924,16 @@ fn c16(rng: &mut Rng, tier: &str, idx: usize) -> Case {
     let k = if tier == "quick" { 4 } else { 12 };
     let with_roots = rng.chance(1, 2);
     let max_terms = *rng.pick(&[4usize, 8, 15, 25]);
-    let (f, _) = gen_facts(rng, &DagOpts { max_terms, with_roots, max_recs: 5 });
+    let (mut f, _) = gen_facts(rng, &DagOpts { max_terms, with_roots, max_recs: 5 });
+    let mut with_roots = with_roots;
+    if idx % 25 == 8 || idx % 25 == 16 {
+        // a term with 9..13 / 30..34 / 255..258 direct parents (the inline capacities of the parent
+        // and ancestor sets, the one-byte count of the file format), links supplied in any order
+        let p = *rng.pick(&[9usize, 10, 11, 12, 13, 30, 31, 32, 34, 255, 256, 258]);
+        f = gen_fan(rng, p);
+        with_roots = true;
+        c.stat(&format!("fan_{p}"), 1);
+    }
     let (multi, _) = facts_stats(&f, &mut c);
     for s in 0..k {
         // no duplicate-term ops here: "one name per id" is the hypothesis of C16
@@ -1167,7 +1200,15 @@ fn c10(rng: &mut Rng, idx: usize) -> Case {
             }
         }
         c.stat("obsolete_or_replaced_terms", flags.len() as u64);
-        let fv = 2 + rng.below(2) as u8;
+        if rng.chance(1, 2) {
+            // a term without a name (the shortest term record; facts_to_fops moves it to an end of
+            // the section)
+            let i = rng.below(f.terms.len() as u64) as usize;
+            if f.terms[i].0 != 1 && f.terms[i].0 != 118 {
+                f.terms[i].1 = String::new();
+            }
+        }
+        let fv = 1 + rng.below(3) as u8;
         facts_to_fops(rng, &f, &flags, fv, 0, true, &mut c);
     } else {
         // with rejected calls (absent terms, also with record ids that are never registered)
